@@ -326,15 +326,12 @@ def isJoin (m : Meta) : Bool := m.path == "join"
 /-- the ACTIVE switches: findings still open.  Repaired in /repo and therefore no longer consulted (a recurrence is an
     unattributed failure = VIOLATION): C23-F1 notInPlainAnti (47485db), C23-F2 inSubquerySkipsNulls (08ac987),
     C23-F4 nonEqFilterFlipped (1caf07a), C23-F5 inDropsNonEqCorr and C23-F6 inDropsProjectedCorr (2272b7e),
-    C23-F7 scalarCountBug (51cab70). -/
+    C23-F7 scalarCountBug (51cab70), C23-F9 scalarFirstBatchOnly (8fe594c), C23-F10 corrScalarFirstRowTyped (9a7f30b),
+    C23-F12 scalarReductionDup (ba41c49), C23-F13 inSubqueryTypesLimited (69c41ef). -/
 def switches : List Sw :=
   [ { id := "C23-F3", set := fun d => { d with corrScalarInSelectNull := true, corrErrorsSwallowed := true },
       applies := fun m si => !isJoin m && si.correlated && m.unq && m.narrow },
-    { id := "C23-F13", set := fun d => { d with inSubqueryTypesLimited := true }, applies := fun m _ => !isJoin m && m.kind == "in" },
-    { id := "C23-F12", set := fun d => { d with scalarReductionDup := true }, applies := fun m si => isJoin m && m.kind == "scalar_agg" && si.correlated },
-    { id := "C23-F8", set := fun d => { d with corrErrorsSwallowed := true }, applies := fun m si => !isJoin m && si.correlated && (m.kind == "scalar_row" || m.kind == "scalar_agg" || m.kind == "exists") },
-    { id := "C23-F9", set := fun d => { d with scalarFirstBatchOnly := true }, applies := fun m si => !isJoin m && m.kind == "scalar_row" && m.layout != "mem1" && si.agg.isNone },
-    { id := "C23-F10", set := fun d => { d with corrScalarFirstRowTyped := true }, applies := fun m si => !isJoin m && si.correlated && (m.kind == "scalar_row" || m.kind == "scalar_agg") } ]
+    { id := "C23-F8", set := fun d => { d with corrErrorsSwallowed := true }, applies := fun m si => !isJoin m && si.correlated && (m.kind == "scalar_row" || m.kind == "scalar_agg" || m.kind == "exists") } ]
 
 def subsets {α} : List α → List (List α)
   | [] => [[]]
@@ -391,14 +388,25 @@ def handler : Driver.Handler := fun cj i => do
   match spec with
   | .error (.card _) =>
     -- the reference raises the scalar subquery's cardinality error: so must the engine
-    let k := match mres with | .error (.card _) => true | _ => false
+    -- … unless the offending outer rows are removed by another conjunct of the WHERE first (conjuncts without subquery are
+    -- pushed into the scan; SQL leaves the evaluation order of AND operands open): the model, which filters first, then
+    -- answers with rows, and the engine must return exactly those
+    let filteredFirst : Bool := match mres, o with
+      | .ok t, .ok out => bagEq out (normTable t)
+      | _, _ => false
+    let k := match mres, o with
+      | .error (.card _), _ => true
+      | .ok _, .err _ => true          -- the engine raised what the reference raises; the model only filtered first
+      | .ok _, _ => filteredFirst
+      | _, _ => false
     let ofail : Option String := match o with
       | .err _ => none
       | .panic p => some s!"engine panicked: {p.take 120}"
-      | .ok out => some s!"a scalar subquery returns more than one row: the statement must fail, the engine returned {out.length} rows"
+      | .ok out => if filteredFirst then none else
+          some s!"a scalar subquery returns more than one row: the statement must fail, the engine returned {out.length} rows"
     let attr := if ofail.isSome then attrC23 m msg c o spec else none
     pure { model := specJson (mres.map normTable), k := k, oracle := ofail, nt := true,
-           tags := c.tags ++ [pathTag, "spec:card", match o with | .err _ => "impl:err:card" | .ok _ => "impl:rows" | .panic _ => "impl:panic"],
+           tags := c.tags ++ [pathTag, "spec:card", match o with | .err _ => "impl:err:card" | .ok _ => (if filteredFirst then "impl:rows_filtered_first" else "impl:rows") | .panic _ => "impl:panic"],
            attr := attr }
   | _ =>
     -- an uncorrelated scalar subquery with more than one row may be reported although no outer row asks for it
